@@ -279,7 +279,7 @@ var capModes = []string{"end", "gap", "len"}
 
 // dstForms: how the caller of an AEAD passes dst: nil; a separate buffer with a few bytes of capacity (the result is reallocated unless it is tiny);
 // a separate buffer with room for the whole result; the message argument itself (x[:0]).
-var dstForms = []string{"nil", "sep", "room", "inplace"}
+var dstForms = []string{"nil", "sep", "room", "inplace", "inplace-capped"}
 
 func TestMemRapid(t *testing.T) {
 	sec := vk.Sec("MemRapid")
